@@ -316,18 +316,20 @@ def f1_compaction(ctx):
     inner = g[0] if g else None
     ok = inner is not None and inner[1] and isinstance(inner[0], ast.Call) and au.call_tail(inner[0]) == "is_valid"
     ctx.check(ok, "C02-F1", site, "kept edges are not exactly those satisfying is_valid", "")
-    incs = [s for s in blk if isinstance(s, ast.AugAssign) and isinstance(s.target, ast.Name) and isinstance(s.op, ast.Add)
-            and au.const(s.value) == 1]
+    def _inc(s):
+        i = au.increment(s)
+        return i is not None and i[1] == 1 and au.const(i[2]) == 1 and i[0].isidentifier()
+    incs = [s for s in blk if _inc(s)]
     if len(incs) != 1:
         ctx.fail("C02-F1", site, f"compacted edge index advanced {len(incs)} time(s) per kept edge instead of once",
                  "the new index of a kept edge is the number of edges kept before it")
         return
-    nvar = incs[0].target.id
+    nvar = au.increment(incs[0])[0]
     init = [s for s in au.stmts(fn.body) if isinstance(s, ast.Assign) and isinstance(s.targets[0], ast.Name)
-            and s.targets[0].id == nvar]
+            and s.targets[0].id == nvar and not _inc(s)]
     loops = [a for a in au.ancestors(st) if isinstance(a, ast.For)]
     ok = len(init) == 1 and au.const(init[0].value) == 0 and loops and not any(a is loops[-1] for a in au.ancestors(init[0])) \
-        and len([s for s in au.stmts(fn.body) if isinstance(s, ast.AugAssign) and isinstance(s.target, ast.Name) and s.target.id == nvar]) == 1
+        and len([s for s in au.stmts(fn.body) if au.increment(s) is not None and au.increment(s)[0] == nvar]) == 1
     ctx.check(ok, "C02-F1", site, f"compacted index `{nvar}` is not initialised to 0 before the loop and advanced only with the append",
               "surviving edges must be numbered 0,1,2,... in order")
     # attribute copy under index nvar, before the increment, guarded by `ie in old`
@@ -422,9 +424,8 @@ def d1_dispatch(ctx):
     for st in fn.body:
         if isinstance(st, ast.Assign) and au.is_self_attr(st.targets[0]):
             exposed[st.targets[0].attr] = (-1, au.src(st.value))
-        if isinstance(st, ast.If) and isinstance(st.test, ast.Compare) and isinstance(st.test.ops[0], ast.Gt) \
-                and isinstance(st.test.left, ast.Name):
-            k = au.const(st.test.comparators[0])
+        k = _gt_threshold(st.test) if isinstance(st, ast.If) else None
+        if k is not None:
             for s in st.body:
                 if isinstance(s, ast.Assign) and au.is_self_attr(s.targets[0]):
                     exposed[s.targets[0].attr] = (k, au.src(s.value))
@@ -631,6 +632,23 @@ def c1_corner_generation(ctx):
               "attributes on cell faces are unusable")
 
 
+def _gt_threshold(test):
+    """test is `name > k` in any spelling (`k < name`, `name >= k+1`, `not name <= k`): returns k, else None"""
+    t, pol = au.strip_not(test)
+    if not (isinstance(t, ast.Compare) and len(t.ops) == 1):
+        return None
+    l, r, op = t.left, t.comparators[0], type(t.ops[0])
+    if isinstance(r, ast.Name) and isinstance(au.const(l), int):
+        l, r = r, l
+        op = {ast.Lt: ast.Gt, ast.LtE: ast.GtE, ast.Gt: ast.Lt, ast.GtE: ast.LtE}.get(op)
+    if not (isinstance(l, ast.Name) and isinstance(au.const(r), int)) or op is None:
+        return None
+    k = au.const(r)
+    if not pol:
+        op = {ast.Lt: ast.GtE, ast.LtE: ast.Gt, ast.Gt: ast.LtE, ast.GtE: ast.Lt}.get(op)
+    return {ast.Gt: k, ast.GtE: k - 1}.get(op)
+
+
 # ---------------------------------------------------------------------------- A1
 def a1_from_arrays(ctx):
     fn = ctx.repo.func(MESH, "from_arrays")
@@ -641,7 +659,7 @@ def a1_from_arrays(ctx):
     # padding
     pad_ok = rej_ok = False
     for st in fn.body:
-        if isinstance(st, ast.If) and isinstance(st.test, ast.Compare) and au.src(st.test.left) == f"{V}.shape[1]":
+        if isinstance(st, ast.If) and isinstance(st.test, ast.Compare) and f"{V}.shape[1]" in [au.src(x) for x in [st.test.left] + st.test.comparators]:
             try:
                 w, _ = order.compare(st.test, "w < 3", lambda node: "w" if au.src(node) == f"{V}.shape[1]" else (_ for _ in ()).throw(order.Unsupported("x")))
             except order.Unsupported:
